@@ -146,8 +146,11 @@ func c10check(w *Worker, b []byte, threeWay bool) {
 			in := append(make([]byte, 0, len(b)+8), b...) // spare capacity: in-place appends would be visible
 			res := redact.VerifInternalEscapeBytes(in, start, brk, false)
 			w.Eval(1)
-			if !bytes.Equal(in, orig) || !bytes.Equal(in[:cap(in)][:len(b)], orig) {
-				viol("internal-input-mutated", "input modified (start="+itoa(start)+")")
+			if !bytes.Equal(in, orig) {
+				// Observation, not a verdict: no statement forbids an implementation that
+				// edits in place as long as the accessors stay pure (C13 decides that).
+				w.Count("internal_routine_modified_its_input", 1)
+				copy(in, orig)
 			}
 			if !validTail(b[:start]) {
 				// start offset inside a multi-byte sequence: outside the
@@ -176,7 +179,8 @@ func c10check(w *Worker, b []byte, threeWay bool) {
 		}
 	}
 	if !bytes.Equal(b, orig) {
-		viol("input-mutated", "input slice modified")
+		w.Count("public_function_modified_its_input", 1) // observation only
+		copy(b, orig)
 	}
 
 	// (D) ManualBuffer, both escaping modes, write splitting.
